@@ -165,12 +165,24 @@ func runCfg(c cfgCase, fails *[]cq.ImplFailure) cfgCase {
 			return -1
 		}
 	}
-	c.G0 = int64(bwe.GetTargetBitrate())
-	_, lb := gcc.VerifLossUpdate(bwe, 0, 0, false)
-	c.L0 = int64(lb)
-	c.D0 = int64(gcc.VerifOnDelayStatsPeek(bwe))
-	c.TH = byHook()
-	c.TL = byLog(c.G0)
+	c.TH, c.TL = -1, -1
+	first := make(chan struct{})
+	go func() {
+		defer close(first)
+		c.G0 = int64(bwe.GetTargetBitrate())
+		_, lb := gcc.VerifLossUpdate(bwe, 0, 0, false)
+		c.L0 = int64(lb)
+		c.D0 = int64(gcc.VerifOnDelayStatsPeek(bwe))
+		c.TH = byHook()
+		c.TL = byLog(c.G0)
+	}()
+	select {
+	case <-first:
+	case <-time.After(8 * time.Second):
+		*fails = append(*fails, cq.ImplFailure{Kind: "hang", Detail: "getters of a freshly constructed estimator did not return within 8s", Case: c})
+
+		return c
+	}
 	c.Obs = nil
 	hung := false
 	for i := range c.Ops {
